@@ -7,8 +7,8 @@ rundemo() { # $1=k $2=tag
   k=$1
   if [ -f "$O/demo$k/go.mod" ]; then (cd "$O/demo$k" && go test $RACE -count=1 ./... >$L/$P.demo$k.$2.log 2>&1); return $?
   elif [ -f "$O/go.mod" ] && [ -d "$O/demo$k" ]; then (cd "$O" && go test $RACE -count=1 ./demo$k/ >$L/$P.demo$k.$2.log 2>&1); return $?
-  elif [ -f "$O/demo/go.mod" ]; then (cd "$O/demo" && go test $RACE -count=1 -run "Demo$k([^0-9]|\$)" ./... >$L/$P.demo$k.$2.log 2>&1); return $?
-  elif [ -f "$O/go.mod" ]; then (cd "$O" && go test $RACE -count=1 -run "Demo$k([^0-9]|\$)" ./... >$L/$P.demo$k.$2.log 2>&1); return $?
+  elif [ -f "$O/demo/go.mod" ]; then (cd "$O/demo" && go test $RACE -count=1 -run "(Demo|Mutant)$k([^0-9]|\$)" ./... >$L/$P.demo$k.$2.log 2>&1); return $?
+  elif [ -f "$O/go.mod" ]; then (cd "$O" && go test $RACE -count=1 -run "(Demo|Mutant)$k([^0-9]|\$)" ./... >$L/$P.demo$k.$2.log 2>&1); return $?
   else return 99; fi
 }
 for k in 1 2 3 4; do
